@@ -11,6 +11,13 @@ def main():
     only = [a for a in sys.argv[1:] if not a.startswith('-')]
     dirs = sorted(glob.glob(f'{V}/selftest/*/') + glob.glob(f'{V}/seeded/*/'))
     res = []
+    clean = {}
+    def clean_ok(p):
+        if p not in clean:
+            r = sh(f'{V}/bin/govc check {p} --verif /tmp/govc-selftest-clean-out', cwd=V)
+            clean[p] = (r.returncode == 0)
+            shutil.rmtree('/tmp/govc-selftest-clean-out', ignore_errors=True)
+        return clean[p]
     for d in dirs:
         name = os.path.basename(d.rstrip('/'))
         if only and not any(o in name for o in only):
@@ -29,6 +36,8 @@ def main():
             if r.returncode != 0:
                 res.append((name, 'PATCH-DOES-NOT-APPLY', r.stderr.strip())); continue
             detected, out_all = False, ''
+            if not all(clean_ok(p) for p in props):
+                res.append((name, 'NO-CHECK', 'the check for ' + ','.join(props) + ' does not pass on the unchanged tree (not built / not clean)')); continue
             for p in props:
                 r = sh(f'{V}/bin/govc check {p} --repo {wt} --verif {wt}/.verif-out', cwd=V)
                 out_all += r.stdout
@@ -44,7 +53,7 @@ def main():
     bad = 0
     for n, s, dt in res:
         print(f'{s:10s} {n}  {dt}')
-        if s != 'DETECTED': bad += 1
+        if s not in ('DETECTED',): bad += 1
     print(f'selftest: {len(res)-bad}/{len(res)} detected')
     sys.exit(1 if bad else 0)
 main()
